@@ -115,7 +115,7 @@ PROPS = {
     },
     "C02": {
         "verus": [("directory_lookup", ["Directory.lookup", "Directory.lookup_with_info", "Directory.get_lookup_info", "Directory.build_lookup_info", "Directory.derive_commitment_key",
-                                        "Directory.batch_lookup", "lemma_the_info", "get_marker_version", "Azks.get_latest_epoch"]), ("verify_lookup", ["lookup_verify"])],
+                                        "Directory.batch_lookup", "lemma_the_info", "get_marker_version", "Azks.get_latest_epoch"]), ("verify_lookup", ["lookup_verify"]), "azks_proofs"],
         "search": True,
         "always_search": True,
         "bounded_search": [{"obligation": "replay/c0203#all_answers",
@@ -127,8 +127,8 @@ PROPS = {
                  "without such a state gets an error, never a proof; build_lookup_info asks the VRF for exactly the triple (Fresh, v), (Fresh, 2^floor(log2 v)), (Stale, v) - the same `plog` the verifier's contract "
                  "(C06) uses, get_marker_version = 63 - leading_zeros verified; lookup_with_info fills every field from the component produced for the right (freshness, version) and tree label: the three VRF "
                  "proofs' bytes, membership proofs of the existent and marker labels, the non-membership proof of the stale label, value/version/epoch of the selected state, and the commitment nonce of "
-                 "(key-derived commitment key, node label of the fresh VRF proof, version, value). Not decided: that the tree contains these leaves (C01), that honest membership / non-membership proofs verify "
-                 "(C05 completeness), lock discipline against the poller. batch_lookup: per label, in order, the answer is assembled from THE lookup info of (label, epoch of the one epoch record read) by the same lookup_with_info, "
+                 "(key-derived commitment key, node label of the fresh VRF proof, version, value). Not decided: that the tree contains these leaves (C01), that the NON-membership proof's prefix conditions hold for the honest anchor "
+                 "(the fold-to-root part of C05 completeness is proved in unit azks_proofs), lock discipline against the poller. batch_lookup: per label, in order, the answer is assembled from THE lookup info of (label, epoch of the one epoch record read) by the same lookup_with_info, "
                  "and its assert_eq! can never fail (R-ASSERTEQ turns it into an obligation).",
         "trusted": ["T4 the VRF as functions of (key storage, label, freshness, version); R-UFCS rewrites `self.vrf.m(..)` into free-function stubs (the VRF trait has async methods)",
                     "T6 results of storage / tree reads are functions of what one request sees (user_state, mem_proof, nonmem_proof, root_hash_of, azks_read)",
@@ -139,7 +139,7 @@ PROPS = {
     "C03": {
         "verus": [("directory_lookup", ["Directory.create_single_update_proof", "Directory.key_history__head", "Directory.key_history__tail", "Directory.derive_commitment_key", "lemma_min_max",
                                         "lemma_mask_is_filter", "Azks.get_latest_epoch"]),
-                  ("verify_history", ["verify_single_update_proof", "verify_with_history_params", "lemma_consecutive"])],
+                  ("verify_history", ["verify_single_update_proof", "verify_with_history_params", "lemma_consecutive"]), "azks_proofs"],
         "search": True,
         "always_search": True,
         "bounded_search": [{"obligation": "replay/c0203#all_answers",
@@ -309,12 +309,12 @@ PROPS = {
         "assumed": [],
     },
     "C05": {
-        "verus": [("verify_base", ["verify_membership", "verify_nonmembership", "NodeLabel.value", "NodeLabel.root", "NodeLabel.new"]), "trie_lemmas"],
+        "verus": [("verify_base", ["verify_membership", "verify_nonmembership", "NodeLabel.value", "NodeLabel.root", "NodeLabel.new"]), "trie_lemmas", "azks_proofs"],
         "kani": ["c05"],
         "verus_thorough": ["node_label"],
         "search": True,
         "always_search": True,
-        "scope": "verifier side: verify_membership accepts exactly when the bottom-up Merkle fold of the proof hashes to the root; verify_nonmembership "
+        "scope": "server side, COMPLETENESS of honest proofs (unit azks_proofs): on a hash-consistent stored tree (every non-leaf node stores the parent hash of its children as read - what update_hash establishes) the proof walk get_lcp_node_label_with_membership_proof returns a membership proof that folds, by the verifier's own bottom-up fold, to the stored root value, for every label asked; get_membership_proof and the anchor proof of get_non_membership_proof inherit it (partial correctness; the prefix conditions of non-membership proofs and termination are not decided). Verifier side: verify_membership accepts exactly when the bottom-up Merkle fold of the proof hashes to the root; verify_nonmembership "
                  "accepts only proofs anchored at the deepest matching node (anchor is a prefix of the label, is the lcp of its two children, no child is a "
                  "prefix of the label, children hash to the anchor, anchor is a member). Meaning (unit trie_lemmas, spec level): for every well-formed full binary compressed trie T, under "
                  "injective parent / label hashes and leaf-interior domain separation (hypotheses, not axioms), mem_ok against T's hash proves a node of T with that label and hash, and "
